@@ -254,7 +254,14 @@ def run_case(case):
         if len(viols) < 4:
             viols.append({"class": cls, "signature": dict(sig), "detail": d})
 
-    frames = make_data(case)
+    try:
+        frames = make_data(case)
+    except TypeError as e:
+        if "complex" not in str(e):
+            raise
+        # '**' on a concentration the integrator overshot below zero (the known C07 finding): case outside the domain
+        return {"violations": [], "stats": {"setups": 1, "skipped_power_of_negative_concentration": 1}, "sig": None,
+                "nontrivial": False, "digest": "skipped"}
     log = hashlib.sha256()
     try:
         live = build_setup(case, frames, case["measurements"], case["trajs"])
@@ -277,7 +284,13 @@ def run_case(case):
             break
         if stoch:
             R_.py_seed_random(case["eval_seed"])
-        ref = reference_cost(case, frames, th, stoch)
+        try:
+            ref = reference_cost(case, frames, th, stoch)
+        except TypeError as e:
+            if "complex" not in str(e):
+                raise
+            stats["skipped_power_of_negative_concentration"] = 1
+            break
         stats["evaluations"] += 1
         log.update(repr((th, v)).encode())
         if not math.isfinite(ref):
